@@ -485,7 +485,9 @@ impl PartialOrd<Self> for Repeat {
 
 impl Ord for Repeat {
     fn cmp(&self, other: &Self) -> Ordering {
-        self.as_ordinal().cmp(&other.as_ordinal())
+        // `Infinite` must outrank every finite count, including `Times(u32::MAX)`.
+        let rank = |repeat: &Repeat| (*repeat == Repeat::Infinite, repeat.as_ordinal());
+        rank(self).cmp(&rank(other))
     }
 }
 
